@@ -246,7 +246,7 @@ pub fn run(ctx: &Ctx) -> PropResult {
     let mut meta = PropMeta::default();
     meta.exhaustive = !quick;
     meta.rule = format!(
-        "{} ordered pairs of Dates inside three windows (2019-12-01…2024-03-31 with a leap day; −3-01-01…3-12-31 across the era boundary; 1899-06…1901-06 across a common century year){}: per earlier-date b every a ascending — value (model month shift, only when the earlier date's day of month ≤ 28), antisymmetry, monotonicity in a, years = trunc(months/12). DateTime pairs in the same windows with times {{00:00, equal, ±1 ns around b's time, random}} and far-apart random pairs over the whole range. Non-trivial = same-month, borrow, era-straddling and same-day pairs (Dates); every DateTime pair. Distinct by input hash. Fresh-thread workload: every pair is the first thing a brand-new thread asks (earlier date on 0001-01-01, ±1 day, leap days, range ends …). Offset::Local twins (pairs) for months_since / years_since, incl. anniversaries ± a few hours in real zones.",
+        "{} ordered pairs of Dates inside three windows (2019-12-01…2024-03-31 with a leap day; −3-01-01…3-12-31 across the era boundary; 1899-06…1901-06 across a common century year){}: per earlier-date b every a ascending — value (model month shift, only when the earlier date's day of month ≤ 28), antisymmetry, monotonicity in a, years = trunc(months/12). DateTime pairs in the same windows with times {{00:00, equal, ±1 ns around b's time, random}} and far-apart random pairs over the whole range. Non-trivial = same-month, borrow, era-straddling and same-day pairs (Dates); every DateTime pair. Distinct by input hash. Fresh-thread workload: every pair is the first thing a brand-new thread asks (earlier date on 0001-01-01, ±1 day, leap days, range ends …). Offset::Local twins (pairs) for months_since / years_since, incl. anniversaries ± a few hours in real zones. DateTime pairs inside one second of the day with independently structured sub-second parts (digit groups 0/1/999/1000/999999/10^6…).",
         if quick { "all" } else { "ALL" },
         if quick { " — quick: 400-day sub-windows around the leap day / era boundary" } else { "" }
     );
